@@ -86,7 +86,7 @@ class P(Prop):
                     row = [(not c) if rng.random() < p_flip else c for c in row]
                 sts.append(list(row))
             case = {"swbs": swbs, "breakers": breakers, "sts": sts,
-                    "setter": rng.choice(["all", "each"]), "later": []}
+                    "setter": rng.choice(["all", "each"]), "later": [], "numeric": rng.random() < 0.35}
             # history: further status settings on the SAME system object; "reuse" = the caller mutates
             # the array it passed before in place and passes it again (same series length)
             if breakers and rng.random() < 0.35:
@@ -142,11 +142,12 @@ class P(Prop):
             s = build_system(swbs, brk)
             steps = []
             if brk:
-                arr = np.array(case["sts"], dtype=bool).reshape(len(case["sts"]), len(brk))
+                dt = float if case.get("numeric") else bool      # the front ends pass np.ones(...) floats
+                arr = np.array(case["sts"], dtype=dt).reshape(len(case["sts"]), len(brk))
                 apply(s, arr)
                 steps.append(snap(s))
                 for lt in case.get("later", []):
-                    new = np.array(lt["sts"], dtype=bool).reshape(len(lt["sts"]), len(brk))
+                    new = np.array(lt["sts"], dtype=dt).reshape(len(lt["sts"]), len(brk))
                     if lt["reuse"] and new.shape == arr.shape:
                         arr[:, :] = new      # the caller edits its own buffer in place ...
                     else:
@@ -219,6 +220,8 @@ class P(Prop):
         swbs, brk, sts = case["swbs"], case["breakers"], case["sts"]
         t = [f"nswb={len(swbs)}", f"nbrk={min(len(brk), 5)}{'+' if len(brk) > 5 else ''}",
              "setter=" + case["setter"], f"settings-on-one-object={1 + len(case.get('later', []))}"]
+        if case.get("numeric"):
+            t.append("numeric-0/1-status")
         if any(lt["reuse"] for lt in case.get("later", [])):
             t.append("caller-buffer-reused-in-place")
         obs = dict(obs["steps"][0]) if "steps" in obs else obs
